@@ -32,3 +32,4 @@ run af012bc C17
 run f2c727c C17
 run "c0b6a38 ce960b9" C15 C16
 run c0b6a38 C15
+run ad377e4 C18
